@@ -18,12 +18,13 @@ type CertEntry struct {
 }
 
 type SPMeta struct {
-	EntityID            string
-	AuthnRequestsSigned *string
-	ACS                 []ACS
-	SLO                 []SLO
-	Certs               []CertEntry
-	NoSPSSO             bool
+	EntityID             string
+	AuthnRequestsSigned  *string
+	WantAssertionsSigned *string
+	ACS                  []ACS
+	SLO                  []SLO
+	Certs                []CertEntry
+	NoSPSSO              bool
 }
 
 func (m SPMeta) XML() []byte {
@@ -33,6 +34,9 @@ func (m SPMeta) XML() []byte {
 		sb.WriteString(`<md:SPSSODescriptor protocolSupportEnumeration="urn:oasis:names:tc:SAML:2.0:protocol"`)
 		if m.AuthnRequestsSigned != nil {
 			fmt.Fprintf(&sb, ` AuthnRequestsSigned="%s"`, EscAttr(*m.AuthnRequestsSigned))
+		}
+		if m.WantAssertionsSigned != nil {
+			fmt.Fprintf(&sb, ` WantAssertionsSigned="%s"`, EscAttr(*m.WantAssertionsSigned))
 		}
 		sb.WriteString(`>`)
 		for _, c := range m.Certs {
